@@ -106,7 +106,16 @@ def sum_case(draw, tier, shard=0, nshards=1):
         "lattice": list(lat), "nelec": list(nelec), "U": draw(st.sampled_from([2.0, 4.0, 8.0, 0.5])), "dt": draw(st.sampled_from([0.005, 0.05])),
         "e_shift": draw(st.sampled_from([0.0, 0.2, -1.0])), "trial": t, "chol_class": draw(st.sampled_from(["on-site", "on-site", "zero"])),
         "slow": draw(st.booleans()),
+        # a spin-dependent one-body term (pinning / Zeeman field on the sites): K_up != K_dn
+        "pin": draw(st.sampled_from([None, None, "field"])) and [draw(st.floats(-1.0, 1.0)) for _ in range(n)],
     }
+
+
+def _h1_spin(case, h1):
+    pin = case.get("pin")
+    if not pin:
+        return h1, h1
+    return h1 + np.diag(np.asarray(pin, float)), h1 - np.diag(np.asarray(pin, float))
 
 
 def sum_body(ctx, case):
@@ -115,6 +124,7 @@ def sum_body(ctx, case):
     U, dt, Es = float(case["U"]), float(case["dt"]), float(case["e_shift"])
     t = case["trial"]
     h1 = lattice_h1(lat, n)
+    h1u, h1d = _h1_spin(case, h1)
     F = fock(n)
     trial, wd, C = build_cpmc_trial(n, nelec, t)
     nconf = 2**n
@@ -124,10 +134,10 @@ def sum_body(ctx, case):
         for i in range(n):
             chol[i, i, i] = np.sqrt(U)
     H = hmod.hamiltonian(n)
-    hd = {"h0": 0.0, "h1": jnp.asarray(np.stack([h1, h1])), "chol": jnp.asarray(chol.reshape(n, -1)), "ene0": 0.0, "u": U}
+    hd = {"h0": 0.0, "h1": jnp.asarray(np.stack([h1u, h1d])), "chol": jnp.asarray(chol.reshape(n, -1)), "ene0": 0.0, "u": U}
     wu, wdn = np.asarray(t["wu"], float), np.asarray(t["wd"], float)
     nonuniform = t["density"] != "uniform"
-    ctx.case(case, nontrivial=U > 0.5 and n >= 3 and (nonuniform or nelec[0] != nelec[1]), classes=["sum:" + t["trial_kind"], "sum:chol-" + case["chol_class"], f"sum:n={n}", "sum:" + ("slow" if case["slow"] else "fast"), "sum:density-" + t["density"]])
+    ctx.case(case, nontrivial=U > 0.5 and n >= 3 and (nonuniform or nelec[0] != nelec[1]), classes=["sum:" + t["trial_kind"], "sum:chol-" + case["chol_class"], f"sum:n={n}", "sum:" + ("slow" if case["slow"] else "fast"), "sum:density-" + t["density"], "sum:one-body-" + ("spin-dependent" if case.get("pin") else "spin-independent")])
     try:
         hd = H.build_measurement_intermediates(hd, trial, wd)
         hd = H.build_propagation_intermediates(hd, prop, trial, wd)
@@ -179,15 +189,15 @@ def sum_body(ctx, case):
     if np.any(P <= 1e-12) or np.any(w == 0) or not np.all(np.isfinite(w)):
         # legitimate only if a constraint is really active: verify with exact Fock overlaps that some branch along some path has a non-positive ratio
         psi_t = trial_fock(n, nelec, t, C)
-        K = F.one_body(h1, h1)
+        K = F.one_body(h1u, h1d)
         idx_s = F.sector(*nelec)
         gam = np.arccosh(np.exp(dt * U / 2))
         cst = np.exp(-dt * U / 2)
         hs = cst * np.array([[np.exp(gam), np.exp(-gam)], [np.exp(-gam), np.exp(gam)]])
-        e_half = scipy.linalg.expm(-dt / 2 * h1)
+        e_half_u, e_half_d = scipy.linalg.expm(-dt / 2 * h1u), scipy.linalg.expm(-dt / 2 * h1d)
         constrained = False
         for c in range(nconf):
-            Wu_, Wd_ = e_half @ wu, e_half @ wdn
+            Wu_, Wd_ = e_half_u @ wu, e_half_d @ wdn
             o_prev = np.vdot(psi_t, F.slater(Wu_, Wd_)).real
             if o_prev <= 0:
                 constrained = True
@@ -208,7 +218,7 @@ def sum_body(ctx, case):
                 o_prev = np.vdot(psi_t, F.slater(Wu_, Wd_)).real
             if constrained:
                 break
-            o_fin = np.vdot(psi_t, F.slater(e_half @ Wu_, e_half @ Wd_)).real
+            o_fin = np.vdot(psi_t, F.slater(e_half_u @ Wu_, e_half_d @ Wd_)).real
             if o_fin / o_prev < 1e-6:
                 constrained = True
                 break
@@ -223,7 +233,7 @@ def sum_body(ctx, case):
     Wu, Wd = np.asarray(out["walkers"][0]), np.asarray(out["walkers"][1])
     acc = sum(P[c] * w[c] * F.slater(Wu[c], Wd[c]) / ov[c] for c in range(nconf))
     phi = F.slater(wu, wdn)
-    K = F.one_body(h1, h1)
+    K = F.one_body(h1u, h1d)
     idx = F.sector(*nelec)
     v = F.expm_apply(-dt / 2 * K, phi, idx)
     for i in range(n):
